@@ -274,6 +274,8 @@ class Tracer(object):
                 self.pending_assoc, self.last_cur = view
         elif line in ('ev commit', 'ev rollback'):
             self._sp_view = []
+        elif line.startswith('ev manualtx ') or line.startswith('ev latetx '):
+            self.last_cur = int(line.split(' ')[2])
 
     # -- listeners -------------------------------------------------------------------------------
     def _uow(self):
